@@ -240,6 +240,26 @@ def check_markdown_text(name):
     cells = [n.text() for n in root.iter() if n.tag == "td" and "rg-ingredient" in n.classes()]
     if not cells or name not in cells[0]:
         out.append(("C10:visible-text-differs", "ingredient %r shown as %r through the Markdown front end" % (name, cells[:1])))
+    # the same document as a stand-alone page (whole-document post-processing by lxml, with and without embedding of local files)
+    import shutil
+    from .. import gen_site
+    from recipe_grid.static_site.standalone_page import generate_standalone_page
+    scratch = gen_site.scratch_root()
+    try:
+        f = scratch / "page.md"
+        f.write_text(doc, encoding="utf-8")
+        for embed in (True, False):
+            try:
+                page = generate_standalone_page(f, scale=2, embed_local_links=embed)
+            except Exception as e:  # noqa
+                out.append(("C10:text-breaks-rendering:%s" % type(e).__name__, "stand-alone page, %r: %s" % (name, str(e)[:120])))
+                continue
+            proot, pproblems = htmltok.tree(page)
+            pcells = [n.text() for n in proot.iter() if n.tag == "td" and "rg-ingredient" in n.classes()]
+            if [" ".join(c.split()) for c in pcells] != [" ".join(c.split()) for c in cells]:
+                out.append(("C10:visible-text-differs", "stand-alone page (embed_local_links=%r): ingredient %r shown as %r" % (embed, name, pcells[:1])))
+    finally:
+        shutil.rmtree(scratch, ignore_errors=True)
     return out
 
 
@@ -259,7 +279,7 @@ def oracle(run):
         run.case(("oracle", rsexp.tree(t), pre), True)
         for sig, detail in check_tree(t, pre):
             run.violate(sig, detail, {"tree": rsexp.tree(t), "prefix": pre})
-    for name in BACKSLASHED + NASTY[:8]:
+    for name in BACKSLASHED + NASTY[:8] + ["poign\u00e9es de \u2603 na\u00efve \u65e5\u672c \U0001F372"]:
         run.case(("markdown-text", name), True, kind="markdown-text")
         for sig, detail in check_markdown_text(name):
             run.violate(sig, detail, {"markdown_text": name})
